@@ -11,8 +11,10 @@ import (
 	"crypto/rand"
 	"crypto/rsa"
 	"crypto/sha256"
+	"crypto/x509"
 	"encoding/base64"
 	"encoding/json"
+	"encoding/pem"
 	"fmt"
 	"io"
 	"math/big"
@@ -134,6 +136,25 @@ type fakeIDP struct {
 	accessJWT        string
 	accessJWTRefresh string // same, for the access token returned by the refresh grant ("" = follow accessJWT)
 	refreshNonce    string // nonce claim to put into refreshed ID tokens of sessions the harness crafted itself
+	ownKey *rsa.PrivateKey // when set: this IdP's signing key (instead of the shared main key)
+	mint   func(claims map[string]interface{}) string // when set: produces the ID token from the final claim set
+}
+
+// signingKey is the key this IdP publishes and signs with
+func (p *fakeIDP) signingKey() *rsa.PrivateKey {
+	if p.ownKey != nil {
+		return p.ownKey
+	}
+	k, _ := idpKeys()
+	return k
+}
+
+func (p *fakeIDP) publicKeyPEM() []byte {
+	der, err := x509.MarshalPKIXPublicKey(&p.signingKey().PublicKey)
+	if err != nil {
+		panic(err)
+	}
+	return pem.EncodeToMemory(&pem.Block{Type: "PUBLIC KEY", Bytes: der})
 }
 
 func newFakeIDP(clientID string) *fakeIDP {
@@ -147,7 +168,7 @@ func (p *fakeIDP) url() string { return p.srv.URL }
 func (p *fakeIDP) close()      { p.srv.Close() }
 
 func (p *fakeIDP) jwks() []byte {
-	k, _ := idpKeys()
+	k := p.signingKey()
 	n := b64u(k.PublicKey.N.Bytes())
 	e := b64u(big.NewInt(int64(k.PublicKey.E)).Bytes())
 	return []byte(fmt.Sprintf(`{"keys":[{"kty":"RSA","alg":"RS256","use":"sig","kid":"k1","n":"%s","e":"%s"}]}`, n, e))
@@ -273,6 +294,10 @@ func (p *fakeIDP) idToken(user idpUser, nonce string) string {
 			claims[k] = v
 		}
 	}
+	if p.mint != nil {
+		// the suite signs (or mis-signs) the final claim set itself and keeps it as its own knowledge
+		return p.mint(claims)
+	}
 	return p.signClaims(claims)
 }
 
@@ -309,7 +334,8 @@ func (p *fakeIDP) accessToken(user idpUser, opaque string, mode string) string {
 }
 
 func (p *fakeIDP) signClaims(claims map[string]interface{}) string {
-	main, other := idpKeys()
+	_, other := idpKeys()
+	main := p.signingKey()
 	var tok string
 	switch p.signAlg {
 	case "", "RS256":
